@@ -684,7 +684,7 @@ pub mod %(name)s {
            t_none=tag("none", "C05 C01 C02"), t_extra=tag("extra", "C05"),
            t_okerr=tag("okerr", "C07 C01 C02 C04 C11"), t_errok=tag("errok", "C07 C01 C02 C04 C11"), t_rs=tag("rs", "C03 C08"),
            t_pos=tag("pos", "C01 C02 C04 C05 C08 C11"), t_match=tag("match", "C06 C08 C10"), t_done=tag("done", "C05"),
-           t_lm=tag("lm", "C01 C07 C09 C10"), t_logn=tag("logn", "C10 C01"), t_log=tag("log", "C10 C06 C01"))
+           t_lm=tag("lm", "C01 C03 C07 C09 C10"), t_logn=tag("logn", "C10 C01"), t_log=tag("log", "C10 C06 C01"))
 
 
 PROJ = """
